@@ -109,7 +109,12 @@ def join(cur, name):
     return name if cur == '' else (cur + name if cur.endswith('/') else cur + '/' + name)
 
 
-IMPLICIT3 = (('star', 3),)
+IMPLICIT3 = (('star', 3), ('implicit',))
+IMPLICIT2 = (('star', 2), ('implicit',))
+
+
+def _is_gstar(seg, pf):
+    return seg is IMPLICIT2 or seg is IMPLICIT3 or ref_aut.is_gstar(seg, pf)
 
 
 def ref_glob(model, seq, fl, limit=20000):
@@ -121,8 +126,7 @@ def ref_glob(model, seq, fl, limit=20000):
     if absolute:
         raise ValueError('absolute patterns are handled by the caller')
     if ((fl.X and not has_sep) or fl.B) and segs:
-        segs = [(IMPLICIT3 if (fl.L and fl.F) else (('star', 2),))] + list(segs)
-        pf = ref_aut.PathFlags(globstar=True, globstarlong=fl.L)
+        segs = [(IMPLICIT3 if (fl.L and fl.F) else IMPLICIT2)] + list(segs)
     out = {}
     n = len(segs)
 
@@ -162,13 +166,13 @@ def ref_glob(model, seq, fl, limit=20000):
 
     def walk(cur, i, st):
         seg = segs[i]
-        if ref_aut.is_gstar(seg, pf):
+        if _is_gstar(seg, pf):
             j = i
-            while j + 1 < n and ref_aut.is_gstar(segs[j + 1], pf):
+            while j + 1 < n and _is_gstar(segs[j + 1], pf):
                 j += 1
             # consecutive globstars merge; the merged one follows links if any member (`***`) does
             k = max(segs[x][0][1] for x in range(i, j + 1))
-            follow = (fl.F and not fl.L) or k == 3 or (segs[i] == IMPLICIT3)
+            follow = (fl.F and not fl.L) or k == 3
             last = j == n - 1
             below = descend(cur, follow)
             if last:
